@@ -114,10 +114,15 @@ def Spec.select (s : Spec) (p : Entry → Bool) (withMeta : Bool) : List Entry :
 def hasAll (ts : Tags) (e : Entry) : Bool := ts.all (e.tags.contains ·)
 def hasAny (ts : Tags) (e : Entry) : Bool := ts.any (e.tags.contains ·)
 
+/-- the `name=` branch of `remove` applies: the name is given, present, and not the name server's own -/
+def Spec.nameVictim (s : Spec) (name : Option Str) : Option Str :=
+  match truthy? name with
+  | some n => if s.has n && n != nsName then some n else Option.none
+  | Option.none => Option.none
+
 /-- removal of every entry whose name satisfies `m`, except the name server's own entry -/
 def specRemoveWhere (m : Str → Bool) (s : Spec) : Res × Spec :=
-  let v := fun n => m n && n != nsName
-  (.num (s.filter (fun e => v e.name)).length, s.drop v)
+  (.num (s.filter (fun e => m e.name && e.name != nsName)).length, s.drop (fun n => m n && n != nsName))
 
 /-- What each operation answers on a plain map: names literal and case sensitive, prefixes literal. -/
 def specStep (env : Env) : Op → Spec → Res × Spec
@@ -139,9 +144,7 @@ def specStep (env : Env) : Op → Spec → Res × Spec
       | Option.none => (.err .naming, s)
       | some e => (.none, s.put ⟨n, e.uri, storedTags md⟩)
   | .remove name pfx regex, s =>
-    match (match truthy? name with
-           | some n => if s.has n && n != nsName then some n else Option.none
-           | Option.none => Option.none) with
+    match s.nameVictim name with
     | some n => (.num 1, s.drop (· == n))
     | Option.none =>
       match truthy? pfx with
